@@ -147,7 +147,7 @@ def _cfg(uni, projects, depth, invariants, properties, handles=("h1", "h2")):
     consts = {
         "Projects": tlc.lit(set(projects)), "Keys": tlc.lit(set(uni.keys)), "Vals": tlc.lit(set(uni.vals)), "Handles": tlc.lit(set(handles)),
         "DocVals": tlc.lit({"d1"}), "FileNames": tlc.lit({"f1"}), "FVals": tlc.lit({"c1"}), "MaxDepth": depth, "IdOrder": "<- IdOrderDef",
-        "Ops": "<- OpsDef", "InitJobs": "<- InitJobsDef", "InitCache": "<- InitCacheDef", "FixedD3": tlc.lit(W.probe_d3()), "FixedD4": tlc.lit(W.probe_d4()),
+        "Ops": "<- OpsDef", "InitJobs": "<- InitJobsDef", "InitCache": "<- InitCacheDef", "FixedD3": tlc.lit(W.probe_d3()), "FixedD4": tlc.lit(W.probe_d4()), "FixedD7": tlc.lit(W.probe_d7()),
     }
     return tlc.cfg(consts, init="CInit", next="CNext", invariants=invariants, properties=properties, constraints=["CDepth"])
 
